@@ -142,6 +142,54 @@ void h_fe_storage(void) {
     if (stval(&s) >= P_()) REACH("fe_from_storage non-canonical storage");
 #endif
 }
+/* ---------------------------------------------------------------- representation changes used by the inversion code */
+#if defined(USE_FORCE_WIDEMUL_INT64)
+typedef secp256k1_modinv32_signed30 sa_signedN; typedef secp256k1_scalar sa_sc_;
+# define SA_SN_LIMBS 9
+# define SA_SN_BITS 30
+# define SA_SN_TOPBITS 16
+# define fe_to_signedN secp256k1_fe_to_signed30
+# define fe_from_signedN secp256k1_fe_from_signed30
+# define sc_to_signedN secp256k1_scalar_to_signed30
+# define sc_from_signedN secp256k1_scalar_from_signed30
+#else
+typedef secp256k1_modinv64_signed62 sa_signedN;
+# define SA_SN_LIMBS 5
+# define SA_SN_BITS 62
+# define SA_SN_TOPBITS 8
+# define fe_to_signedN secp256k1_fe_to_signed62
+# define fe_from_signedN secp256k1_fe_from_signed62
+# define sc_to_signedN secp256k1_scalar_to_signed62
+# define sc_from_signedN secp256k1_scalar_from_signed62
+#endif
+static wide snval(const sa_signedN *a) { wide v = 0; int i; for (i = SA_SN_LIMBS - 1; i >= 0; i--) v = (v << SA_SN_BITS) + W((uint64_t)a->v[i]); return v; }
+static int sn_tight(const sa_signedN *a) { int i, ok = 1; for (i = 0; i < SA_SN_LIMBS - 1; i++) ok = ok && a->v[i] >= 0 && ((uint64_t)a->v[i] >> SA_SN_BITS) == 0;
+    return ok && a->v[SA_SN_LIMBS - 1] >= 0 && ((uint64_t)a->v[SA_SN_LIMBS - 1] >> SA_SN_TOPBITS) == 0; }
+void h_fe_signed(void) {
+    INPUT(secp256k1_fe, a); INPUT(sa_signedN, sn); INPUT(secp256k1_scalar, sc); INPUT(int, m);
+    secp256k1_fe r; sa_signedN t; secp256k1_scalar rs;
+    /* field element -> signed62/30: normalized input, value preserved, limbs in [0, 2^62) resp. [0, 2^30) */
+    __CPROVER_assume(sa_fe_canon(&a)); FE_FIELDS(a, 1, 1);
+    fe_to_signedN(&t, &a);
+    __CPROVER_assert(sn_tight(&t) && snval(&t) == fval(&a), "C05 fe_to_signed62/30: same value, limbs within width");
+    /* signed62/30 -> field element: limbs in range (modinv output), value preserved, limbs tight */
+    __CPROVER_assume(sn_tight(&sn));
+    fe_from_signedN(&r, &sn);
+    __CPROVER_assert(fval(&r) == snval(&sn) && sa_fe_limbs_tight(&r), "C05 fe_from_signed62/30: same value, limbs within width");
+    /* scalar <-> signed62/30 */
+    __CPROVER_assume(sval(&sc) < N_());
+    sc_to_signedN(&t, &sc);
+    __CPROVER_assert(sn_tight(&t) && snval(&t) == sval(&sc), "C05 scalar_to_signed62/30: same value, limbs within width");
+    __CPROVER_assume(snval(&sn) < N_());
+    sc_from_signedN(&rs, &sn);
+    __CPROVER_assert(sval(&rs) == snval(&sn), "C05 scalar_from_signed62/30: same value");
+    /* get_bounds: the extreme element of magnitude m */
+    __CPROVER_assume(m >= 0 && m <= 32);
+    secp256k1_fe_get_bounds(&r, m);
+    __CPROVER_assert(sa_fe_mag(&r, m) && (m == 0 || !sa_fe_mag(&r, m - 1)), "C05 fe_get_bounds: magnitude exactly m");
+    if (m == 32) REACH("fe_get_bounds 32");
+    if (snval(&sn) == N_() - 1) REACH("from_signed n-1");
+}
 /* ---------------------------------------------------------------- additive group */
 void h_fe_negate(void) {
     INPUT(secp256k1_fe, a); INPUT(int, m);
@@ -174,7 +222,13 @@ void h_fe_mul_int(void) {
         if (m * k <= 32) {
             r = a;
             secp256k1_fe_mul_int_unchecked(&r, k);
-            __CPROVER_assert(fval(&r) == fval(&a) * W(k), "C05 fe_mul_int: value is r * a");
+            /* k * value, distributed over the limb sum: k * sum n[i] 2^(w i) = sum (k n[i]) 2^(w i), every k n[i] computed
+             * in 128 bits and required to fit the limb type (the solver is not asked to re-prove distributivity over
+             * 320-bit adder trees: that miter did not finish in 300 s) */
+            { secp256k1_fe e = a; int i, fits = 1;
+              for (i = 0; i < SA_FE_NL; i++) { unsigned __int128 pr = (unsigned __int128)a.n[i] * (unsigned)k; e.n[i] = (sa_felimb)pr; fits = fits && (pr == (unsigned __int128)e.n[i]); }
+              __CPROVER_assert(fits, "C05 fe_mul_int: no limb overflows");
+              __CPROVER_assert(sa_fe_limbs_equal(&r, &e), "C05 fe_mul_int: value is r * a (every limb is a times the input limb, exactly)"); }
             __CPROVER_assert(sa_fe_mag(&r, m * k), "C05 fe_mul_int: magnitude multiplied by a");
             if (m == 4 && k == 8) REACH("fe_mul_int 4*8");
             if (m == 1 && k == 32) REACH("fe_mul_int 1*32");
